@@ -106,7 +106,14 @@ def run(ctx):
             except KeyError:
                 continue
             ncmp += 1
-            if a is None or b is None or b.replace('_nocancel', '', 1) != a:
+            # identical except for the suffix OF THE CALL NAME: the twin must carry it, the base must not
+            def split(t):
+                i = t.find('(') if t else -1
+                return (t[:i], t[i:]) if i > 0 else (t, '')
+            (na, ra), (nb, rb) = split(a), split(b)
+            same = a is not None and b is not None and ra == rb and \
+                (nb == na + '_nocancel' or (a.startswith('RAISED') and a == b))
+            if not same:
                 ctx.violation('C17/twins-differ@%s' % base, '%s renders %r, %s renders %r' % (base, a, twin, b),
                               {'kind': 'tables', 'entry': base, 'start': [hex(x) for x in S], 'end': [hex(x) for x in E]})
                 break
